@@ -59,15 +59,30 @@ pub fn gen_case_named(seed: u64, idx: usize, kinds: &[SectionKind], mode: usize,
 
 /// `wide_first`: the first section has line numbers of 5-7 digits, the others small ones.
 pub fn gen_case_full(seed: u64, idx: usize, kinds: &[SectionKind], mode: usize, names: &[&str], wide_first: bool) -> Case {
+    gen_case_paths(seed, idx, kinds, mode, names, wide_first, None)
+}
+
+/// `path_cell`: how the paths are written (GenParams::path_style; 9 = `--no-prefix` with directories
+/// named like git's one-letter prefixes); None = drawn, one case in five.
+pub fn gen_case_paths(seed: u64, idx: usize, kinds: &[SectionKind], mode: usize, names: &[&str], wide_first: bool, path_cell: Option<u8>) -> Case {
     let mut rng = Rng::new(mix(seed, &[tag("C10"), tag("concat"), idx as u64]));
+    // a stream of its own: the cases that do not use it stay what they were
+    let mut prng = Rng::new(mix(seed, &[tag("C10"), tag("paths"), idx as u64]));
+    let path_style = match path_cell {
+        Some(c) => c,
+        None if names.is_empty() && prng.chance(1, 5) => *prng.pick(&[1u8, 1, 1, 2, 3, 4, 5, 9]),
+        None => 0,
+    };
     // one case in six is plain `diff -u` output (every kind is then a modified-like section)
     let flavor = if names.is_empty() && !wide_first && rng.chance(1, 6) { gen::Flavor::DiffU } else { gen::Flavor::Git };
-    let gp = GenParams { flavor, sections: vec![], max_hunks: rng.range(1, 3), pivot: *rng.pick(&[1usize, 2, 3]), max_run: 6, with_commit_preamble: false, multibyte: rng.chance(1, 4), no_newline_marker: rng.chance(1, 2), similar_pairs: rng.chance(1, 2), no_index_lines: rng.chance(1, 4), no_prefix: rng.chance(1, 6), line_number_class: 0, long_line_pct: *rng.pick(&[0u8, 0, 8, 50]) };
+    let flavor = if path_cell.is_some() { gen::Flavor::Git } else { flavor };
+    let gp = GenParams { flavor, sections: vec![], max_hunks: rng.range(1, 3), pivot: *rng.pick(&[1usize, 2, 3]), max_run: 6, with_commit_preamble: false, multibyte: rng.chance(1, 4), no_newline_marker: rng.chance(1, 2), similar_pairs: rng.chance(1, 2), no_index_lines: rng.chance(1, 4), no_prefix: rng.chance(1, 6), line_number_class: 0, long_line_pct: *rng.pick(&[0u8, 0, 8, 50]), path_style };
+    let gp = if path_style == 9 { GenParams { no_prefix: true, ..gp } } else if path_cell.is_some() { GenParams { no_prefix: false, ..gp } } else { gp };
     let mut sections = Vec::new();
     let mut tok = 0;
     // one time in three all sections are about the same path (`git log -p -- path`, a file added in
     // one commit and changed in the next, ...)
-    let shared: Option<String> = if rng.chance(1, 3) { Some(format!("{}shared_{}.{}", rng.pick(&["", "src/", "a/b/"]), rng.below(100), rng.pick(&["rs", "png", "txt", "sh"]))) } else { None };
+    let shared: Option<String> = if rng.chance(1, 3) && path_cell.is_none() { Some(format!("{}shared_{}.{}", rng.pick(&["", "src/", "a/b/"]), rng.below(100), rng.pick(&["rs", "png", "txt", "sh"]))) } else { None };
     // one case in five is a `git log -p` stream: every file diff is preceded by a commit header
     // (never for plain `diff -u` output: no tool produces commit headers followed by such sections)
     let log_stream = rng.chance(1, 5) && flavor != gen::Flavor::DiffU;
@@ -278,11 +293,28 @@ pub fn main_c10(tier: &str, seed: u64, replay: Option<&str>) -> i32 {
     for (k, m, _) in &name_cells {
         specs.push((k.clone(), *m));
     }
+    // coverage floor over the ways git writes paths: every ordered pair of the kinds that name their
+    // files in different header lines, with quoted paths / a TAB after paths with blanks (git's
+    // default), mnemonic prefixes, and `--no-prefix` with directories named like a prefix letter;
+    // half of the paths need careful parsing
+    let n_named = specs.len();
+    const PATH_KINDS: &[SectionKind] = &[SectionKind::Modified, SectionKind::ModifiedEndsChanged, SectionKind::Added, SectionKind::Deleted, SectionKind::RenamedPure, SectionKind::RenamedChanged, SectionKind::Copied, SectionKind::ModeOnly, SectionKind::ModeAndChange, SectionKind::Binary, SectionKind::RenamedBinary];
+    let mut path_cells: Vec<u8> = Vec::new();
+    for a in PATH_KINDS {
+        for b in PATH_KINDS {
+            for (j, cell) in [1u8, 1, 2, 3, 9, 9].iter().enumerate() {
+                specs.push((vec![*a, *b], j % 2));
+                path_cells.push(*cell);
+            }
+        }
+    }
     let case_of = |i: usize| -> Case {
         if i < n_plain {
             gen_case(seed, i, &specs[i].0, specs[i].1)
-        } else {
+        } else if i < n_named {
             gen_case_full(seed, i, &specs[i].0, specs[i].1, &name_cells[i - n_plain].2, i - n_plain >= wide_start)
+        } else {
+            gen_case_paths(seed, i, &specs[i].0, specs[i].1, &[], false, Some(path_cells[i - n_named]))
         }
     };
     let results = crate::par_map(specs.len(), &|i| {
